@@ -161,14 +161,15 @@ H_REPORT = Harness(
                   "extra_pre": ["restart == 0 or (N <= 1 and E == 0 and dup == 0 and retres == 1 and retry == 1 and poison == 0 and failing == 0)"],
                   "twin_fixed": {"W": 2, "N": 3, "E": 1, "D": 1, "retry": 0, "retres": 1, "dup": 0}},
         "thorough": {"ranges": {"W": (1, 3), "N": (0, 4), "E": (0, 2), "D": (0, 2), "poison": (0, 4), "failing": (0, 3), "dup": (0, 2)},
-                     "partition": ["W", "N", "E", "D", "retry", "retres", "dup"],
+                     "partition": ["W", "N", "E", "D", "retry", "retres", "dup", "restart"],
                      "filter": (lambda f: (f["W"] <= 2 or (f["N"] <= 3 and f["D"] <= 1 and f["E"] <= 1)) and (f["E"] <= 1 or (f["N"] <= 3 and f["D"] <= 1))
-                                and (f["D"] <= 1 or f["N"] <= 3) and (f["dup"] == 0 or (f["N"] in (2, 3) and f["D"] == 1 and f["retres"] == 1 and f["W"] == 2))),
+                                and (f["D"] <= 1 or f["N"] <= 3) and (f["dup"] == 0 or (f["N"] in (2, 3) and f["D"] == 1 and f["retres"] == 1 and f["W"] == 2))
+                                and (f["restart"] == 0 or (f["N"] <= 2 and f["W"] <= 2 and f["D"] <= 1 and f["E"] <= 1 and f["dup"] == 0 and f["retres"] == 1))),
                      "extra_pre": ["(poison > 1) + (failing > 1) <= 1",
                                    # the largest cells (three workers with a death, or two deaths, on three inputs) keep the quick-tier menus of poison/failing
                                    "(W < 3 and D < 2) or N < 3 or (poison <= 1 and failing <= 1)",
-                                   "restart == 0 or (N <= 2 and dup == 0 and retres == 1 and W <= 2 and poison <= 1 and failing <= 1)"],
-                     "timeout": 1200, "twin_fixed": {"W": 2, "N": 3, "E": 1, "D": 1, "retry": 0, "retres": 1, "dup": 0}},
+                                   "restart == 0 or (poison <= 1 and failing <= 1)"],
+                     "timeout": 1200, "twin_fixed": {"W": 2, "N": 3, "E": 1, "D": 1, "retry": 0, "retres": 1, "dup": 0, "restart": 0}},
     },
     functions=_FUNCS,
 )
